@@ -16,13 +16,18 @@ from .common import all_templates, kinds_label, path_events, short_ctx
 EXPLANATION = (
     "Only the part of C15 that is in the shape of the code: C15-R1 the parenthesisation table of "
     "C03-R3 evaluated against the 3.8 column of the grammar (walrus parenthesised in subscripts and "
-    "set displays, ...); C15-R2 before 3.12 a replacement field may contain neither a backslash nor "
-    "the quote of an enclosing f-string: the renderer must refuse (raise) a field whose text "
-    "contains a backslash, on every host; C15-R3 no emission decision in expr_unparse.py / "
+    "set displays, ...); C15-R2 before 3.12 the expression of a replacement field may contain neither "
+    "a backslash nor the quote of an enclosing f-string: the renderer must refuse (raise) on every "
+    "path that emits a field, on every host, either by testing the expression's text in the field "
+    "renderer or the whole field's text wherever one is embedded; C15-R3 no emission decision in expr_unparse.py / "
     "pending_nodes.py / utils.py / presets is control-dependent on sys.version_info (the output "
     "must be valid for the RUNTIME, about which the host version says nothing); C15-R4 the "
     "templates use only node kinds and fields of the 3.8 abstract grammar; C15-R5 every "
-    "sys.version_info comparison is enumerated with its threshold."
+    "sys.version_info comparison is enumerated with its threshold; C15-R6 builtins, keywords and "
+    "methods used by emitted code exist on 3.8; C12-R7 zero-argument super() in converter-built "
+    "frames; C15-R8 user code moved into comprehension frames (locals()/eval()); C15-R9 a table of "
+    "stdlib printers whose syntax follows the HOST version (ast.unparse: PEP 701 quote re-use from "
+    "3.12 on): a node kind concerned that the rewriter passes through must not reach such a printer."
 )
 ASSUMPTIONS = [
     "what ast.unparse of each host emits, and any run-time behaviour on 3.8-3.13, is not decided (no interpreter is run)",
@@ -61,24 +66,65 @@ def rule_r1(ctx):
     return rr
 
 
+def _field_tests(ctx, needle, want_field_level=False):
+    """Where the renderers test the text of a replacement field for `needle` before emitting it.
+    Returns (where, tested paths, paths that emit although the needle is present, paths that emit a
+    field without having made the test).  Two placements are sufficient for the pre-3.12 rule "the
+    EXPRESSION of a replacement field contains neither a backslash nor the quote of the f-string":
+      value - the field renderer tests the text of its own expression (FormattedValue.value);
+      field - every place that embeds the text of a whole field tests that text (a superset: it also
+              refuses format specs, where both are legal - see C04-R7)."""
+    U = ctx.ustr
+    pf = U.paths("FormattedValue")
+    pj = U.paths("JoinedStr")
+
+    def has(p, subject):
+        return [k for k in p.assign if k.startswith("contains:") and re.search(subject, k) and needle in k.split("):", 1)[-1]]
+
+    if want_field_level:
+        # is the text of a WHOLE field (format spec included) refused anywhere?
+        spec_sub = r"text\(FormattedValue\.format_spec.*values\[\*\]\)"
+        out = []
+        for p in pj:
+            out += [p for k in has(p, r"text\(JoinedStr\.values\[\*\]\)") if p.assign[k] is True and p.outcome == "raise"]
+        for p in pf:
+            out += [p for k in has(p, spec_sub) if p.assign[k] is True and p.outcome == "raise"]
+        return out
+    # placement "value"
+    t = [p for p in pf if has(p, r"text\(FormattedValue\.value\)")]
+    if t:
+        accepted = [p for p in t if p.outcome != "raise" and any(p.assign[k] is True for k in has(p, r"text\(FormattedValue\.value\)"))]
+        untested = [p for p in pf if p.outcome == "ok" and not has(p, r"text\(FormattedValue\.value\)")]
+        return "value", t, accepted, untested
+    # placement "field": the f-string renderer, and the format spec rendered by the field renderer
+    tj = [p for p in pj if has(p, r"text\(JoinedStr\.values\[\*\]\)")]
+    if not tj:
+        return None, [], [], []
+    accepted = [p for p in tj if p.outcome != "raise" and any(p.assign[k] is True for k in has(p, r"text\(JoinedStr\.values\[\*\]\)"))]
+    untested = [p for p in pj if p.outcome == "ok" and any(k.endswith(":FormattedValue") and v is True for k, v in p.assign.items()) and not has(p, r"text\(JoinedStr\.values\[\*\]\)")]
+    spec_sub = r"text\(FormattedValue\.format_spec.*values\[\*\]\)"
+    for p in pf:
+        nested = any(re.match(r"isinstance:FormattedValue\.format_spec.*:FormattedValue$", k) and v is True for k, v in p.assign.items())
+        if not nested:
+            continue
+        if not has(p, spec_sub):
+            if p.outcome == "ok":
+                untested.append(p)
+        elif p.outcome != "raise" and any(p.assign[k] is True for k in has(p, spec_sub)):
+            accepted.append(p)
+    return "field", tj, accepted, untested
+
+
 def rule_r2(ctx):
-    rr = RuleResult("C15-R2", "a replacement field whose text contains a backslash is refused on every host")
+    rr = RuleResult("C15-R2", "the expression of a replacement field that contains a backslash or the quote of the f-string is refused, on every host")
     rr.floor = 1
     U = ctx.ustr
-    paths = U.paths("JoinedStr")
     rr.instances += 1
-    tests = [p for p in paths if any(k.startswith("contains:") and "\\\\" in k for k in p.assign)]
     what = "JoinedStr|backslash"
-    if not tests:
+    where, tests, bad, untested = _field_tests(ctx, "\\\\")
+    skipped = [p for p in untested if any(k.startswith("host:") for k in p.assign)]
+    if where is None:
         rr.fail("C15-R2|JoinedStr|backslash-not-tested", f"{U.gen_map['JoinedStr'].where()}: the f-string renderer never tests for a backslash: on Python < 3.12 a backslash inside a replacement field is a syntax error", what=what)
-        tests = None
-    # on the paths where a backslash is present the outcome must be raise, whatever the host
-    present = [p for p in (tests or []) if any(k.startswith("contains:") and "\\\\" in k and v is True for k, v in p.assign.items())]
-    bad = [p for p in present if p.outcome != "raise"]
-    # paths on which the test is skipped because of a host check
-    skipped = [p for p in paths if p.outcome == "ok" and not any(k.startswith("contains:") and "\\\\" in k for k in p.assign) and any(k.startswith("host:") for k in p.assign)]
-    if tests is None:
-        pass
     elif bad:
         rr.fail("C15-R2|JoinedStr|backslash-accepted", f"{U.gen_map['JoinedStr'].where()}: a field text containing a backslash is emitted [{short_ctx(bad[0], 100)}]", what=what)
     elif skipped:
@@ -87,26 +133,28 @@ def rule_r2(ctx):
             f"{U.gen_map['JoinedStr'].where()}: the backslash test is skipped on some hosts [{short_ctx(skipped[0], 100)}]: a 3.12+ host emits `f'{{x[\"\\xe9\"]}}'`, which Python 3.8-3.11 cannot lex",
             where=U.gen_map["JoinedStr"].where(), what=what,
         )
+    elif untested:
+        rr.fail("C15-R2|JoinedStr|backslash-test-skipped", f"{U.gen_map['FormattedValue'].where()}: a replacement field is emitted on a path that never tests its expression for a backslash [{short_ctx(untested[0], 100)}]", what=what)
     else:
-        rr.ok(what, sample={"rule": "C15-R2", "verdict": "raise when a replacement field contains a backslash, on every host"})
+        rr.ok(what, sample={"rule": "C15-R2", "tested": where, "verdict": "raise when the expression of a replacement field contains a backslash, on every host"})
     # the quote of the f-string itself cannot occur in a field either (it could only be escaped with
     # a backslash): a string constant inside the field that contains it - `f"""{d["it's"]}"""` - is
     # written with the other quote and would carry the outer one raw
     rr.instances += 1
     what = "JoinedStr|outer-quote"
-    qtests = [p for p in paths if any(k.startswith("contains:") and "<qm>" in k for k in p.assign)]
-    if not qtests:
+    where, qtests, accepted, untested = _field_tests(ctx, "<qm>")
+    if where is None:
         rr.fail(
             "C15-R2|JoinedStr|outer-quote-not-tested",
             f"{U.gen_map['JoinedStr'].where()}: the f-string renderer never tests whether a replacement field contains the quotation mark of the f-string: `f\"\"\"{{d[\"it's\"]}}\"\"\"` becomes `f'{{d[\"it's\"]}}'`, which Python 3.8-3.11 cannot lex (unterminated string)",
             where=U.gen_map["JoinedStr"].where(), what=what,
         )
+    elif accepted:
+        rr.fail("C15-R2|JoinedStr|outer-quote-accepted", f"{U.gen_map['JoinedStr'].where()}: a field text containing the quotation mark of the f-string is emitted [{short_ctx(accepted[0], 100)}]", what=what)
+    elif untested:
+        rr.fail("C15-R2|JoinedStr|outer-quote-test-skipped", f"{U.gen_map['FormattedValue'].where()}: a replacement field is emitted on a path that never tests its expression for the quotation mark of the f-string [{short_ctx(untested[0], 100)}]", what=what)
     else:
-        accepted = [p for p in qtests if p.outcome != "raise" and any(k.startswith("contains:") and "<qm>" in k and v is True for k, v in p.assign.items())]
-        if accepted:
-            rr.fail("C15-R2|JoinedStr|outer-quote-accepted", f"{U.gen_map['JoinedStr'].where()}: a field text containing the quotation mark of the f-string is emitted [{short_ctx(accepted[0], 100)}]", what=what)
-        else:
-            rr.ok(what, sample={"rule": "C15-R2", "verdict": "raise when a replacement field contains the quote of the f-string"})
+        rr.ok(what, sample={"rule": "C15-R2", "tested": where, "verdict": "raise when the expression of a replacement field contains the quote of the f-string"})
     # quotes of nested literals (shared with C04-R4)
     from .c04 import rule_r4 as c04r4
 
@@ -344,6 +392,67 @@ def rule_r8(ctx):
     return rr
 
 
+# Printers of the standard library whose output SYNTAX follows the version of the interpreter that
+# runs them, with the node kinds concerned (read off Lib/ast.py of 3.8-3.13; confirmed with the
+# interpreters of the sandbox, hunted/H6/bug5.py).
+HOST_PRINTERS = {
+    "ast.unparse": {
+        "JoinedStr": "from 3.12 on ast.unparse writes a string literal inside a replacement field with the quote of the "
+                     "enclosing f-string (PEP 701): `print(f\"{d['a']}\")` is emitted as `print(f'{d['a']}')`, a SyntaxError on 3.8-3.11",
+    },
+}
+
+
+def rule_r9(ctx):
+    """The text returned on each option path: when it is printed by a routine of the HOST's standard
+    library whose syntax follows the host version, a node kind concerned must not reach it."""
+    from .exprcopy import all_expr_paths
+
+    rr = RuleResult("C15-R9", "no version-sensitive node kind is printed by a printer whose syntax follows the host's version")
+    rr.floor = 1
+    prog = ctx.prog
+    fi = prog.func("oneliner", "convert_code_string")
+    rets = [n for n in ast.walk(fi.node) if isinstance(n, ast.Return) and n.value is not None]
+    if not rets:
+        raise AnalysisError("C15-R9: convert_code_string has no return")
+    calls = []
+    for r in rets:
+        for c in ast.walk(r.value):
+            if isinstance(c, ast.Call):
+                calls.append(c)
+        # follow local names once (text = printer(tree); return text...)
+        for nm in [x.id for x in ast.walk(r.value) if isinstance(x, ast.Name)]:
+            for a in ast.walk(fi.node):
+                if isinstance(a, ast.Assign) and any(isinstance(t, ast.Name) and t.id == nm for t in a.targets):
+                    calls += [c for c in ast.walk(a.value) if isinstance(c, ast.Call)]
+    from ..model import ExtRef
+
+    resolved = {id(c): t for c, t in ctx.cg.call_sites.get(fi.fq, [])}
+    printers = []
+    for c in calls:
+        t = resolved.get(id(c))
+        if isinstance(t, ExtRef) and t.dotted in HOST_PRINTERS:
+            printers.append((c, t.dotted))
+    rr.instances += len(rets)
+    if not printers:
+        rr.ok("returns", sample={"rule": "C15-R9", "returns": len(rets), "verdict": "no host-versioned printer produces the returned text"})
+        return rr
+    paths = all_expr_paths(ctx)
+    for c, dotted in printers:
+        for kind, why in HOST_PRINTERS[dotted].items():
+            rr.instances += 1
+            what = f"{dotted}|{kind}"
+            if any(p.outcome == "ok" for p in paths.get(kind, [])):
+                rr.fail(
+                    f"C15-R9|convert_code_string|{dotted}|{kind}|host-syntax",
+                    f"{fi.where()} line {c.lineno}: the returned text is printed by the host's `{dotted}` and ast.{kind} nodes of the script reach it unchanged: {why}. The result of the conversion depends on the version of the converting host (3.10/3.11 hosts produce working text)",
+                    where=fi.where(), what=what,
+                )
+            else:
+                rr.ok(what, sample={"rule": "C15-R9", "printer": dotted, "kind": kind, "verdict": "the kind never reaches the printer"})
+    return rr
+
+
 def rule_c06r11(ctx):
     """Hosts before 3.12 give comprehensions symbol tables of their own; how generate_nsp treats them
     (shared rule C06-R11) decides whether such a host converts what a 3.12 host converts."""
@@ -352,4 +461,4 @@ def rule_c06r11(ctx):
     return r(ctx)
 
 
-RULES = [("C15-R1", rule_r1), ("C15-R2", rule_r2), ("C15-R3", rule_r3), ("C15-R4", rule_r4), ("C15-R5", rule_r5), ("C15-R6", rule_r6), ("C12-R7", rule_r7), ("C15-R8", rule_r8), ("C06-R11", rule_c06r11)]
+RULES = [("C15-R1", rule_r1), ("C15-R2", rule_r2), ("C15-R3", rule_r3), ("C15-R4", rule_r4), ("C15-R5", rule_r5), ("C15-R6", rule_r6), ("C12-R7", rule_r7), ("C15-R8", rule_r8), ("C15-R9", rule_r9), ("C06-R11", rule_c06r11)]
